@@ -203,7 +203,7 @@ class Job:
             info = gen_trace(args, tr)
             r = run_tlc(self.name, self.module + ".tla", self.cfg or (self.module + ".cfg"), workers=1, env={"TRACE": tr}, accel=self.accel, mem=self.mem,
                         timeout=self.timeout)
-            r.update(kind="trace", name=self.name, records=info.get("records", 0), info=info, trace=tr)
+            r.update(kind="trace", name=self.name, records=info.get("records", 0), info=info, trace=tr, gen_args=args)
             # samples: first records + records of verdicts
             sample_lines = [1, 2, 3]
             vl = sorted({v["l"] for v in r["verdicts"]})[:40]
